@@ -365,6 +365,8 @@ pub fn has_mul_right(e: &Expr) -> bool {
             }
             Expr::Un(UnOp::Neg, x) => spine_has_mod_div(x),
             Expr::Case(bs) => bs.iter().any(|(_, v)| spine_has_mod_div(v)),
+            // `null ?? x` folds to x
+            Expr::Bin(BinOp::Coalesce, l, r) => spine_has_mod_div(l) || spine_has_mod_div(r),
             _ => false,
         }
     }
@@ -387,6 +389,7 @@ pub fn has_mod_divi_right(e: &Expr) -> bool {
             Expr::Bin(BinOp::DivI, ..) => true,
             Expr::Un(UnOp::Neg, x) => spine_has_divi(x),
             Expr::Case(bs) => bs.iter().any(|(_, v)| spine_has_divi(v)),
+            Expr::Bin(BinOp::Coalesce, l, r) => spine_has_divi(l) || spine_has_divi(r),
             Expr::Bin(op, l, _) if op.level() == 5 => spine_has_divi(l),
             _ => false,
         }
